@@ -148,16 +148,20 @@ PROP = dict(
 
 META = dict(
     text="Proof (Lean 4, exact rationals): for EVERY reward history the slot machine state keeps shape = 1 + n/2 > 0, rate >= 10 and "
-         "non-decreasing, variance estimate > 0, and its mean equals the arithmetic mean of the rewards seen (hence lies in their hull); "
-         "sample() always hands a positive shape/scale/variance to the sampler (zero-precision guard); random_argmax and weighted return "
-         "an index of a maximal value / of a positive weight for every non-empty input whatever the random draws; the distance reward is "
-         "within [0, 3(N+1)] for non-negative fitness vectors of N objectives (documented [0,6] proved for N = 1 and refuted for N = 3 by "
-         "the S26 witness), the performance multiplier within [9/16, 3]; MaxGeneration and composite estimates are within [0,1]; the sample-mode "
-         "ring buffer of MinVariation equals the window of the last `sample` generations and the period-mode drain equals the declarative "
-         "window (in-period samples, extended to the two most recent), firing iff every objective's cv is not above the threshold; the "
-         "Remedian never holds more than base^exponent observations and its buffers always stand for exactly `count` of them. "
-         "Tie: the real code is run on the same inputs (bit-exact where f64 is provably exact, 1e-9 otherwise) and the property oracle "
-         "is evaluated on the real f64 values including 0/denormal/huge reward streams.",
+         "non-decreasing, rate = 10 + half the squared deviations from the mean (Welford), variance estimate > 0, and its mean equals the "
+         "arithmetic mean of the rewards seen (hence lies in their hull); sample() always hands a positive shape/scale/variance to the "
+         "sampler (zero-precision guard); random_argmax and weighted return an index of a maximal value / of a positive weight for every "
+         "non-empty input whatever the random draws; the distance is positive iff the solution is better, the base reward is within "
+         "[0, 3(N+1)] for non-negative fitness vectors of N objectives (documented [0,6] proved for N = 1 and refuted for N = 3 by the S26 "
+         "witness), positive iff the parent is improved, the performance multiplier within [9/16, 3]; MaxGeneration and composite estimates "
+         "are within [0,1] (1 exactly at termination); TargetProximity stops iff the distance is below the threshold; the sample-mode ring "
+         "buffer of MinVariation is a rotation of the window of the last `sample` generations and, for every time-sorted history of up to "
+         "1000 samples, the period-mode drained store answers like the declarative window over the WHOLE history (in-period samples, "
+         "extended to the two most recent; S27), firing iff every objective's cv is not above the threshold; the Remedian accepts exactly "
+         "min(n, base^exponent) observations, its buffers stand for exactly `count` of them and its median is one of the observations; "
+         "selection sampling yields exactly min(amount, size) increasing items. Tie: the real code is run on the same inputs (bit-exact "
+         "where f64 is provably exact, 1e-9 otherwise) and the property oracle is evaluated on the real f64 values including "
+         "0/denormal/huge reward streams, the default gamma/normal sampler and the whole DynamicSelective heuristic.",
     note=COMMON_NOTE + " Partial by nature: f64 rounding/overflow/NaN cannot be exhibited by the exact model; the real-code oracle explores them.",
     technique="Lean 4 theorems over core Rat (Mathlib tactics only in the proof file) + differential correspondence of the model and the real rosomaxa code",
 )
